@@ -105,4 +105,28 @@ theorem C06_of_C01 (op : Op) (hop : op ≠ .difference) (a b r1 r2 : MPoly) (q :
   | xor => exact (C06_laws _ _).2.2.1
   | difference => exact absurd rfl hop
 
+/-- C06 (operand swap), table level: for the three symmetric operations neither the edge selection nor the
+    result transition looks at which operand an edge belongs to — swapping the operands (which flips
+    `is_subject` on every event) cannot change which edges are selected or their transition.  For
+    difference both do depend on it (second part: a witness), which is why swap is not claimed there. -/
+theorem C06_tables_symmetric (op : Op) (hop : op ≠ .difference) (et : EdgeType) (s s' io oio : Bool) :
+    inResultOf et op s oio = inResultOf et op s' oio
+    ∧ resultTransitionOf et op s io oio = resultTransitionOf et op s' io oio := by
+  cases op <;> first | exact absurd rfl hop | (cases et <;> cases s <;> cases s' <;> cases io <;> cases oio <;> decide)
+
+theorem C06_tables_difference_asymmetric :
+    inResultOf .normal .difference true true ≠ inResultOf .normal .difference false true := by decide
+
+/-- C06 (A op A), table level: when every edge coincides with an edge of the other operand with the same
+    orientation, `possible_intersection` types the pair (non-contributing, same-transition); the tables then
+    select exactly one edge of each pair for intersection and union — with the transition of the edge
+    itself, "outside → inside" iff the edge's own operand is entered — and no edge at all for difference
+    and xor, whatever the flags are. -/
+theorem C06_tables_self (op : Op) (s io oio : Bool) :
+    inResultOf .nonContributing op s oio = false
+    ∧ inResultOf .sameTransition op s oio = (op == .intersection || op == .union)
+    ∧ (inResultOf .sameTransition op s oio = true →
+        resultTransitionOf .sameTransition op s io oio = if io then .inOut else .outIn) := by
+  cases op <;> cases s <;> cases io <;> cases oio <;> decide
+
 end Gbo.Props
